@@ -398,5 +398,6 @@ def replay_one(cid, st, values, obligation_name):
     confirmed = None
     if obligation_name is not None:
         confirmed = any(f["name"] == obligation_name for f in failed)
+    evaluated = obligation_name is not None and any(o.name == obligation_name for o in ctx.obligations)
     return {"values": values, "failed": failed, "confirmed": confirmed, "error": err, "touched": list(caller.touched.values()),
-            "checked": len(ctx.obligations)}
+            "checked": len(ctx.obligations), "evaluated": evaluated}
